@@ -7,6 +7,7 @@ CONSTANTS
   LP = 4
   LQ = 0
   LR = 0
+  Ext = {}
 SPECIFICATION PathsSpec
 INVARIANT DesignU
 CHECK_DEADLOCK FALSE
